@@ -418,9 +418,18 @@ impl ProtocolSet {
             })
             .collect::<FuturesUnordered<_>>();
 
+        // A protocol whose receiver is gone (the user dropped the protocol, the node is shutting
+        // down) must not prevent the remaining protocols from learning about the connection:
+        // failing here makes the manager roll back every later connection. The failure is only
+        // logged, the same way `report_connection_closed()` tolerates it.
         while !futures.is_empty() {
             if let Some(Err(error)) = futures.next().await {
-                return Err(error.into());
+                tracing::debug!(
+                    target: LOG_TARGET,
+                    ?peer,
+                    ?error,
+                    "failed to report connection established to protocol",
+                );
             }
         }
 
